@@ -70,15 +70,17 @@ var props = map[string]Prop{
 	},
 	"C16": {
 		ID: "C16", Level: "exploration",
-		Rule: "rapid generates modules of 4-12 packages; each package directory holds a random tree (depth <= 4; names with leading . and _, spaces, unicode, names module.CheckFilePath rejects, .git, empty directories, symlinks, nested go.mod) and one //go:embed line built from a pattern list (existing files and directories, globs derived from them, all: prefix, quoted and back-quoted spellings, duplicates, invalid and non-matching patterns, odd directive prefixes, trailing junk); one `go list -e -json ./...` per module is the reference for EmbedPatterns, EmbedFiles and acceptance. Non-trivial: package with a hidden/underscore/invalid name, a symlink, a nested module, a glob, all:, quoting, a special pattern or an odd directive. Distinct by hash of (tree, directive line). Second job: rapid-generated file sets (names chosen so that directories have siblings sorting before '/') are passed through BuildFSEntries and the resulting table is installed into a real embed.FS value, whose own ReadFile/ReadDir/WalkDir must find every file and directory; non-trivial there = the set contains a directory.",
+		Rule: "rapid generates modules of 4-12 packages; each package directory holds a random tree (depth <= 4; names with leading . and _, spaces, unicode, names module.CheckFilePath rejects, .git, empty directories, symlinks, nested go.mod) and one //go:embed line built from a pattern list (existing files and directories, globs derived from them, all: prefix, quoted and back-quoted spellings, duplicates, invalid and non-matching patterns, odd directive prefixes, trailing junk); one `go list -e -json ./...` per module is the reference for EmbedPatterns, EmbedFiles and acceptance. Non-trivial: package with a hidden/underscore/invalid name, a symlink, a nested module, a glob, all:, quoting, a special pattern or an odd directive. Distinct by hash of (tree, directive line). Second job: rapid-generated file sets (names chosen so that directories have siblings sorting before '/') are passed through BuildFSEntries and the resulting table is installed into a real embed.FS value, whose own ReadFile/ReadDir/WalkDir must find every file and directory; non-trivial there = the set contains a directory. Third job (compiled): rapid generates modules of 1-3 packages with drawn file trees (sizes 0..65537 around block boundaries; NUL, 0xFF, CR/LF, quote/backslash, UTF-8 and pseudo-random bytes; hidden/underscore/blank/non-ASCII names; nested directories) and 1-5 embed variables per package of type string, []byte and embed.FS (files, directories, all:, globs, several patterns, one file in two variables); the program built by the llgo under test prints length+FNV hash of every variable, writes through every []byte variable, and walks every embed.FS (ReadDir listings, ReadFile, Info, chunked Read, Seek, ReadAt, Stat, Close, missing and invalid names); output compared line by line with the gc build of the same module. Non-trivial there = a module with >= 2 variables and a file that is empty, larger than 4 KiB or holds NUL/0xFF/random bytes.",
 		Assumptions: []string{
 			"`go list -e -json` of the go1.24 toolchain is the reference for which files are embedded and which packages are rejected",
 			"errors are compared as accept/reject only, not by message",
 			"each generated package carries one //go:embed variable, so go list's per-package union equals that variable's file list",
+			"compiled job: gc (go1.24) output is the reference; nil-ness of a []byte variable embedding an empty file is not compared (contents are); O0 only (LLVM 14)",
 		},
 		Jobs: []Job{
 			inj("golist", "internal/goembed", "zz_verif_c16_test.go", "", "TestVerifC16GoList", 60, 2500, 6, 16),
 			inj("fstable", "internal/goembed", "zz_verif_c16_fs_test.go", "", "TestVerifC16FSTable", 20000, 1000000, 1, 4),
+			prog("programs", "./harness/c16", "TestC16Programs", 2, 12, 4, 16),
 		},
 	},
 	"C07": {
